@@ -91,7 +91,7 @@ SHAPES = {1: (4,), 2: (3, 4), 3: (2, 3, 2)}
 
 def cases(tier, seed):
     out = []
-    DP = [(1, 1), (2, 2), (3, 1)] if tier == 'quick' else [(1, 1), (2, 2), (3, 1), (2, 3), (4, 2)]
+    DP = [(1, 1), (2, 2), (3, 1)] if tier == 'quick' else [(1, 1), (2, 2), (3, 1), (2, 3), (4, 2), (1, 3), (5, 1), (3, 3)]
     kinds = ['real', 'complex', 'nonfinite']
 
     def add(kind, **prm):
@@ -99,10 +99,10 @@ def cases(tier, seed):
     for (D, P) in DP:
         for vk in kinds:
             for rank in (1, 2, 3):
-                nidx = len(index_exprs(rank, np.random.default_rng(0), 40 if tier == 'quick' else 150))
+                nidx = len(index_exprs(rank, np.random.default_rng(0), 40 if tier == 'quick' else 216))
                 chunk = 40
                 for c in range(0, nidx, chunk):
-                    add('index', D=D, P=P, vals=vk, rank=rank, start=c, stop=min(nidx, c + chunk), nsample=40 if tier == 'quick' else 150)
+                    add('index', D=D, P=P, vals=vk, rank=rank, start=c, stop=min(nidx, c + chunk), nsample=40 if tier == 'quick' else 216)
             add('shapeops', D=D, P=P, vals=vk)
             add('reductions', D=D, P=P, vals=vk)
             add('construct', D=D, P=P, vals=vk)
